@@ -14,7 +14,7 @@
 (*     oracle, denotes the field's value; the field is omitted from the body     *)
 (*  HMMany {n, body, st, wrong}  n mapped root fields (beyond the native      *)
 (*     field cache): number of fields that did not get their value            *)
-EXTENDS HttpMap, HttpVal, TLC, TraceKit
+EXTENDS HttpMap, HttpVal, Codec, TLC, TraceKit
 
 Trace == ndJsonDeserialize("trace.ndjson")
 VARIABLES l
@@ -36,11 +36,29 @@ Step ==
            ELSE IF got = eff THEN MM(R("ListedOrder"))          \* follows the parser's effective order, not the listed one
            ELSE MM(R("Source"))
         /\ Chk(e.st # "ok" \/ e.body # "json" \/ e.plain, [tag |-> "MM", i |-> l, ev |-> "HM", api |-> e.ty, label |-> "UnannotatedFromBody", exp |-> "", got |-> "differs", detail |-> ""])
+        \* the HTTP converter (j2t.HTTPConv) wraps what the plain converter produces for the request into a CALL message for the
+        \* method (name "M", sequence id 0, the argument's field id 1) - header ++ struct ++ footer - and fails exactly when it fails;
+        \* DoInto appends the same bytes behind the buffer's content
+        /\ IF "env" \notin DOMAIN e THEN TRUE
+           ELSE LET w == Wrap(<<77>>, 1, <<0, 0, 0, 0>>, 1, e.env.inner)
+                    RE(lbl, g2) == [tag |-> "MM", i |-> l, ev |-> "HM", api |-> "HTTPConv", label |-> lbl, exp |-> e.env.innerst, got |-> g2, detail |-> e.lvl \o "/" \o e.req \o "/" \o e.body] IN
+                /\ Chk(e.env.st = e.env.innerst /\ (e.env.st = "ok" => e.env.wrapped = w), RE("Envelope", IF e.env.st # e.env.innerst THEN e.env.st ELSE "bytes-differ"))
+                /\ Chk(e.env.stinto = e.env.innerst /\ (e.env.stinto = "ok" => e.env.winto = <<1, 2, 3>> \o w), RE("EnvelopeInto", IF e.env.stinto # e.env.innerst THEN e.env.stinto ELSE "bytes-differ"))
      ELSE IF e.ev = "HR" THEN
         /\ Chk(e.st = "ok", [tag |-> "MM", i |-> l, ev |-> "HR", api |-> e.kind, label |-> "Converts", exp |-> "ok", got |-> e.st, detail |-> ""])
         /\ Chk(e.st # "ok" \/ e.delivered, [tag |-> "MM", i |-> l, ev |-> "HR", api |-> e.kind, label |-> "Delivered", exp |-> "", got |-> "not-delivered", detail |-> ""])
         /\ Chk(e.st # "ok" \/ ~e.inbody, [tag |-> "MM", i |-> l, ev |-> "HR", api |-> e.kind, label |-> "OmittedFromBody", exp |-> "", got |-> "still-in-body", detail |-> ""])
         /\ Chk(e.st # "ok" \/ e.others, [tag |-> "MM", i |-> l, ev |-> "HR", api |-> e.kind, label |-> "OtherFieldsInBody", exp |-> "", got |-> "differs", detail |-> ""])
+        \* the HTTP converter (t2j.HTTPConv) takes the whole message: a REPLY (type 2) must carry the result field 0; any other
+        \* message type is converted by the response struct's field of that id (only 0 is declared here); a cut envelope is an
+        \* error; what it delivers (raw body, header / cookie, status) is what the plain converter delivers for the struct alone
+        /\ IF "envs" \notin DOMAIN e THEN TRUE
+           ELSE \A k \in 1..Len(e.envs) :
+                  LET v == e.envs[k]
+                      want == IF v.cut THEN "err" ELSE IF v.mt = 2 THEN (IF v.sid = 0 THEN "ok" ELSE "err") ELSE IF v.sid = 0 THEN "ok" ELSE "err" IN
+                  Chk(v.st = want /\ (want = "ok" => v.body = e.inner /\ v.hdr = e.ihdr /\ v.code = e.icode),
+                      [tag |-> "MM", i |-> l, ev |-> "HR", api |-> "HTTPConv", label |-> "ReplyEnvelope", exp |-> want,
+                       got |-> IF v.st # want THEN v.st ELSE "delivers-differently", detail |-> e.kind])
      ELSE IF e.ev = "HV" THEN
         LET x == HVExpect(e.ty, e.v)
             R(lbl, got) == [tag |-> "MM", i |-> l, ev |-> "HV", api |-> e.ty, label |-> lbl, exp |-> "", got |-> got, detail |-> e.src] IN
